@@ -29,7 +29,8 @@ theorem conversion_is_idempotent (t : Ty) (ht : Simple t) (j : JVal) :
   | ok v => exact Or.inl (by simp [Except.bind, conv_idem t ht j v h])
 
 /-- a tuple needs an element for every component: a shorter array is a conversion error, never a partly filled tuple -/
-theorem short_tuple_is_an_error (t : Ty) (ts : List Ty) : convTuple (t :: ts) [] = .error .conv := rfl
+theorem short_tuple_is_an_error (t : Ty) (ts : List Ty) : convTuple (t :: ts) [] = .error .conv := by
+  simp [convTuple]
 
 theorem fixed_array_needs_exact_length (t : Ty) (n : Nat) (xs : List JVal) (h : xs.length ≠ n) :
     conv (.array t n) (.arr xs) = .error .conv := by
@@ -37,7 +38,8 @@ theorem fixed_array_needs_exact_length (t : Ty) (n : Nat) (xs : List JVal) (h : 
 
 /-! non-vacuity -/
 example : Simple (.seq (.tuple [.int (-128) 127, .str, .opt .bool])) := by simp [Simple, SimpleList]
-example : conv (.tuple [.int 0 255, .str]) (.arr [.int 7, .str [97], .null]) = .ok (.arr [.int 7, .str [97]]) := by rfl
+example : conv (.tuple [.int 0 255, .str]) (.arr [.int 7, .str [97], .null]) = .ok (.arr [.int 7, .str [97]]) := by
+  simp [conv, convTuple]
 
 end C17
 end Props
